@@ -54,13 +54,13 @@ vars == <<Family, prog, S, R, phase, bm, ops, crashed, fixbad, lastres, probes, 
 \* Families: which modules exist, in which order they are written, the statement menu of each module
 \* =========================================================================================================
 Present ==
-  CASE Family \in {"chain", "chain-q", "exports", "exports-q", "reexp", "reexp-q", "topstar"} -> {"p", "p.a", "p.b"}
+  CASE Family \in {"chain", "chain-q", "exports", "exports-q", "reexp", "reexp-q", "topstar", "splice"} -> {"p", "p.a", "p.b"}
     [] Family \in {"pkg", "pkg-q"} -> {"p", "p.s", "p.s.c"}
     [] Family \in {"graph", "graph-q", "fine"} -> {"p", "p.a", "p.b", "q"}
     [] Family \in {"wild", "wild-q", "retarget", "retarget-q"} -> {"p", "p.a", "p.b"}
     [] OTHER -> {"p"}
 ModOrder ==
-  CASE Family \in {"chain", "chain-q", "exports", "exports-q", "wild", "wild-q", "retarget", "retarget-q", "reexp", "reexp-q"} -> <<"p.a", "p.b", "p">>
+  CASE Family \in {"chain", "chain-q", "exports", "exports-q", "wild", "wild-q", "retarget", "retarget-q", "reexp", "reexp-q", "splice"} -> <<"p.a", "p.b", "p">>
     [] Family \in {"pkg", "pkg-q"} -> <<"p.s.c", "p.s", "p">>
     [] Family = "topstar" -> <<"p.a", "p", "p.b">>           \* a sub-module star-imports its (already imported) parent package
     [] Family \in {"graph", "graph-q", "fine"} -> <<"p.a", "p.b", "p", "q">>
@@ -90,6 +90,10 @@ Menu(m) ==
                             \cup (IF Quick THEN {} ELSE {From("p.a", "x"), Def("y"), FromAs("p.a", "y", "x"), Def("x"), All(<<"y">>)})
             [] OTHER ->     {From("p.b", "y"), All(<<"y">>)}
                             \cup (IF Quick THEN {} ELSE {From("p.b", "x"), Star("p.b"), All(<<"x">>), All(<<"x", "y">>), FromAs("p.b", "y", "x")}) )
+    [] Family = "splice" ->        \* a spliced __all__ below a package that has an __all__ (so that expand_exports reaches it), star-imported
+        ( CASE m = "p.a" -> {Def("x"), All(<<"x">>)}
+            [] m = "p.b" -> {FromAs("p.a", "__all__", "a_all"), Star("p.a"), AllInc(<<>>, "a_all"), Def("y")}
+            [] OTHER -> {Star("p.b"), All(<<"x">>), All(<<>>)} )
     [] Family = "topstar" ->
         ( CASE m = "p.a" -> {Def("x"), Def("y"), All(<<"x">>)}
             [] m = "p" -> {FromAs("p.a", "__all__", "a_all"), Star("p.a"), AllInc(<<>>, "a_all"), All(<<"x">>), Def("y")}
@@ -134,6 +138,7 @@ MaxLen(m) ==
     [] Family \in {"chain-q", "exports-q"} -> (IF m = "p" THEN 1 ELSE 2)
     [] Family \in {"reexp", "reexp-q"} -> 2
     [] Family = "topstar" -> (IF m = "p" THEN 3 ELSE IF m = "p.b" THEN 1 ELSE 2)
+    [] Family = "splice" -> (IF m = "p.b" THEN 3 ELSE 2)
     [] Family \in {"pkg", "pkg-q"} -> (IF m = "p.s.c" THEN 1 ELSE 2)
     [] Family \in {"graph", "graph-q", "fine", "wild", "wild-q", "retarget", "retarget-q"} -> (IF m = "q" THEN 1 ELSE 2)
     [] OTHER -> 2
@@ -146,7 +151,7 @@ MaxTotal ==
                 [] Family = "graph-q" -> 2 [] Family = "wild-q" -> 3 [] Family = "retarget-q" -> 5 [] Family = "fine" -> 2
                 [] OTHER -> 2 )
        ELSE ( CASE Family = "chain-q" -> 5 [] Family = "chain" -> 3 [] Family = "exports" -> 5 [] Family = "pkg" -> 4
-                [] Family = "reexp" -> 6 [] Family = "topstar" -> 6
+                [] Family = "reexp" -> 6 [] Family = "topstar" -> 6 [] Family = "splice" -> 7
                 [] Family = "graph-q" -> 3 [] Family = "graph" -> 2 [] Family = "wild" -> 3 [] Family = "retarget" -> 6 [] Family = "fine" -> 3
                 [] OTHER -> 3 )
 \* C06 schedules: "std": load the relevant packages in any order, optionally resolve in between, then resolve twice;
